@@ -271,4 +271,24 @@ theorem withinPeriodic_iff {A : QM3} {d : Q3} {r2 : Rat} (hA : A.det ≠ 0) (hw 
     withinPeriodic A (ginvDiag A) d r2 = true ↔ PeriodicWithin A d r2 :=
   ⟨withinPeriodic_sound, withinPeriodic_complete hA hw⟩
 
+/-! ### Non-vacuity -/
+
+/-- A sheared cell (columns `(1,0,0)`, `(10,1,0)`, `(0,0,1)`) where the component-wise minimum image
+of `d` is *not* the nearest image: the fast path fails and the box search finds `n = (-1,0,0)`. -/
+def exA : QM3 := ⟨1, 10, 0, 0, 1, 0, 0, 0, 1⟩
+def exD : Q3 := ⟨3 / 10, 3 / 100, 0⟩
+
+example : ¬ (exA.apply exD.wrap).normSq ≤ 1 / 5 := by decide +kernel
+example : withinPeriodic exA (ginvDiag exA) exD (1 / 5) = true := by decide +kernel
+example : withinPeriodic exA (ginvDiag exA) exD (1 / 10) = false := by decide +kernel
+/-- hypotheses of `withinPeriodic_complete` / `withinPeriodic_iff` hold here -/
+example : exA.det ≠ 0 ∧ Window exA (1 / 5) ∧ PeriodicWithin exA exD (1 / 5) :=
+  ⟨by decide +kernel, by unfold Window; decide +kernel, ⟨⟨-1, 0, 0⟩, by decide +kernel⟩⟩
+/-- and the complete search refutes the looser radius: no lattice translate is within `1/10`. -/
+example : ¬ PeriodicWithin exA exD (1 / 10) := fun h => by
+  have := withinPeriodic_complete (A := exA) (by decide +kernel) (by unfold Window; decide +kernel) h
+  exact absurd this (by decide +kernel)
+example : (5 : Int) ∈ axisCands (-24 / 5) 1 ∧ (4 : Int) ∈ axisCands (-24 / 5) 1 ∧ (6 : Int) ∉ axisCands (-24 / 5) 1 := by
+  decide +kernel
+
 end Moyo.Periodic
